@@ -27,7 +27,7 @@ func init() {
 func (c *Ctx) ruleSinkAck(rule string, fn *ssa.Function, lockClass string, writerOK func(t *Term) bool, specials func(pa *Path) bool) {
 	p, r := c.P, c.R
 	must := c.MustLocks()
-	paths := c.enum(rule, fn, PathOpts{})
+	paths := c.enum(rule, fn, PathOpts{Inline: inlineSmall("(*eventlogger.FileSink).open", "(*eventlogger.FileSink).rotate", "(*eventlogger.FileSink).reopen", "(*eventlogger.Event).Format")})
 	nAck, nMissing, nFail := 0, 0, 0
 	evParam := fmt.Sprintf("%d:%s", 2, fn.Params[2].Name())
 	for _, pa := range paths {
@@ -368,7 +368,7 @@ func runC13(c *Ctx) {
 		c.eNilRule("C13.file", fn, false)
 		// specials
 		nNull := 0
-		for _, pa := range c.enum("C13.file", fn, PathOpts{}) {
+		for _, pa := range c.enum("C13.file", fn, PathOpts{Inline: inlineSmall("(*eventlogger.FileSink).open", "(*eventlogger.FileSink).rotate", "(*eventlogger.FileSink).reopen", "(*eventlogger.Event).Format")}) {
 			rv := pa.RetVals()
 			if rv == nil {
 				continue
@@ -1300,9 +1300,34 @@ func runC15(c *Ctx) {
 		})
 		r.Check(okCount, "C15.count", "(*FileSink).Process:count", p.Pos(fn.Pos()), "BytesWritten += n of the successful write", "the successful write's byte count is not added to BytesWritten (size-based rotation would never trigger)")
 		// rotate() is called before the write on the file path
-		rot := callsTo(fn, func(n string, cc *ssa.CallCommon) bool { return n == "(*eventlogger.FileSink).rotate" })
-		wr := callsTo(fn, func(n string, cc *ssa.CallCommon) bool { return n == "(*bytes.Reader).WriteTo" })
-		okOrder := len(rot) == 1 && len(wr) >= 1
+		// on every path that writes to the sink's own file, rotate() ran exactly once, before the first write
+		okOrder := true
+		nFilePaths := 0
+		for _, pa := range c.enum("C15.trigger", fn, PathOpts{Inline: inlineSmall("(*eventlogger.FileSink).open", "(*eventlogger.FileSink).rotate", "(*eventlogger.FileSink).reopen", "(*eventlogger.Event).Format")}) {
+			nRot, firstWrite, rotIdx := 0, -1, -1
+			toFile := false
+			for i, s := range pa.CallsOn() {
+				switch stepCallName(s) {
+				case "(*eventlogger.FileSink).rotate":
+					nRot++
+					rotIdx = i
+				case "(*bytes.Reader).WriteTo":
+					if firstWrite < 0 {
+						firstWrite = i
+						if pa.TermsAt(s).Of(pa.Resolve(s, s.In.(ssa.CallInstruction).Common().Args[1])).String() == "Field[f](Param(0:fs))" {
+							toFile = true
+						}
+					}
+				}
+			}
+			if toFile {
+				nFilePaths++
+				if nRot != 1 || rotIdx > firstWrite {
+					okOrder = false
+				}
+			}
+		}
+		okOrder = okOrder && nFilePaths > 0
 		r.Check(okOrder, "C15.trigger", "(*FileSink).Process:rotate-before-write", p.Pos(fn.Pos()), "rotation is evaluated once per write, before writing", "rotate() is not called exactly once per Process before the write")
 	}
 }
